@@ -138,82 +138,108 @@ def unregItems (E : Env) (o : Id) : Dict → DReg → Res DReg
 
 /-! ### add_objects / remove_obstacle (scenario.py:712-724, 773-889) -/
 
+/-- `if obstacle.initial_shape_lanelet_ids is not None: for lanelet_id in …: …add` at the initial time step -/
+def regInit (E : Env) (o : Id) (f : Fwd) (r : DReg) : Res DReg :=
+  match f.initShape with
+  | none => .ok r
+  | some ids => regDyn E o (E.t0 o) ids r
+
+/-- `if obstacle.prediction is not None and obstacle.prediction.shape_lanelet_assignment is not None: for … in ….items()` -/
+def regPred (E : Env) (o : Id) (f : Fwd) (r : DReg) : Res DReg :=
+  if E.kind o = Kind.dynTraj then
+    match f.predShape with
+    | none => .ok r
+    | some d => regItems E o d r
+  else .ok r
+
+def unregInit (E : Env) (o : Id) (f : Fwd) (r : DReg) : Res DReg :=
+  match f.initShape with
+  | none => .ok r
+  | some ids => unregDyn E o (E.t0 o) ids r
+
+def unregPred (E : Env) (o : Id) (f : Fwd) (r : DReg) : Res DReg :=
+  if E.kind o = Kind.dynTraj then
+    match f.predShape with
+    | none => .ok r
+    | some d => unregItems E o d r
+  else .ok r
+
+/-- `_add_static_obstacle_to_lanelets(id, ids)`: `if lanelet_ids is None or len(lanelets) == 0: return` -/
+def addStaticReg (E : Env) (o : Id) (f : Fwd) (r : SReg) : Res SReg :=
+  match f.initShape with
+  | none => .ok r
+  | some ids => if E.lanelets = [] then .ok r else regStatic E o ids r
+
+/-- `_remove_static_obstacle_from_lanelets(id, ids)`: `if lanelet_ids is None: return`;
+    `l_ids = obs.initial_center_lanelet_ids; if l_ids is not None: for l_id in lanelet_ids: ….remove(obstacle_id)` -/
+def removeStaticReg (E : Env) (o : Id) (f : Fwd) (r : SReg) : Res SReg :=
+  match f.initShape with
+  | none => .ok r
+  | some ids =>
+    match f.initCenter with
+    | none => .ok r
+    | some _ => unregStatic E o ids r
+
 /-- `_add_static_obstacle_to_lanelets(id, obstacle.initial_shape_lanelet_ids)` resp. `_add_dynamic_obstacle_to_lanelets(obstacle)` -/
 def addToLanelets (E : Env) (s : St) (o : Id) : Res St :=
-  match E.kind o with
-  | .static =>
-    match (s.fwd o).initShape with
-    | none => .ok s
-    | some ids =>
-      if E.lanelets = [] then .ok s else do
-        let r ← regStatic E o ids s.sreg
-        pure { s with sreg := r }
-  | k =>
-    if E.lanelets = [] then .ok s else do
-      let r1 ← match (s.fwd o).initShape with
-        | none => pure s.dreg
-        | some ids => regDyn E o (E.t0 o) ids s.dreg
-      let r2 ← if k = .dynTraj then
-          match (s.fwd o).predShape with
-          | none => pure r1
-          | some d => regItems E o d r1
-        else pure r1
-      pure { s with dreg := r2 }
+  if E.kind o = Kind.static then do
+    let r ← addStaticReg E o (s.fwd o) s.sreg
+    pure { s with sreg := r }
+  else if E.lanelets = [] then .ok s
+  else do
+    let r1 ← regInit E o (s.fwd o) s.dreg
+    let r2 ← regPred E o (s.fwd o) r1
+    pure { s with dreg := r2 }
 
 /-- `Scenario.add_objects(obstacle)`: `_mark_object_id_as_used` raises ValueError for a used id. -/
 def add (E : Env) (s : St) (o : Id) : Res St :=
-  if o ∈ s.statics ∨ o ∈ s.dynamics ∨ o ∈ E.lanelets then .error .value else
-  match E.kind o with
-  | .static => addToLanelets E { s with statics := s.statics ++ [o] } o
-  | _ => addToLanelets E { s with dynamics := s.dynamics ++ [o] } o
+  if o ∈ s.statics ∨ o ∈ s.dynamics ∨ o ∈ E.lanelets then .error .value
+  else if E.kind o = Kind.static then addToLanelets E { s with statics := s.statics ++ [o] } o
+  else addToLanelets E { s with dynamics := s.dynamics ++ [o] } o
 
 /-- `Scenario.remove_obstacle(obstacle)` with the obstacle object stored in the scenario. -/
 def remove (E : Env) (s : St) (o : Id) : Res St :=
   if o ∈ s.statics then do
-    -- _remove_static_obstacle_from_lanelets(id, obstacle.initial_shape_lanelet_ids)
-    let r ← match (s.fwd o).initShape with
-      | none => pure s.sreg
-      | some ids =>
-        match (s.fwd o).initCenter with      -- `l_ids = obs.initial_center_lanelet_ids; if l_ids is not None:`
-        | none => pure s.sreg
-        | some _ => unregStatic E o ids s.sreg
+    let r ← removeStaticReg E o (s.fwd o) s.sreg
     pure { s with sreg := r, statics := s.statics.filter (· ≠ o) }
   else if o ∈ s.dynamics then
-    if E.lanelets = [] then .ok { s with dynamics := s.dynamics.filter (· ≠ o) } else do
-      let r1 ← match (s.fwd o).initShape with
-        | none => pure s.dreg
-        | some ids => unregDyn E o (E.t0 o) ids s.dreg
-      let r2 ← if E.kind o = .dynTraj then
-          match (s.fwd o).predShape with
-          | none => pure r1
-          | some d => unregItems E o d r1
-        else pure r1
+    if E.lanelets = [] then .ok { s with dynamics := s.dynamics.filter (· ≠ o) }
+    else do
+      let r1 ← unregInit E o (s.fwd o) s.dreg
+      let r2 ← unregPred E o (s.fwd o) r1
       pure { s with dreg := r2, dynamics := s.dynamics.filter (· ≠ o) }
   else .ok s        -- warning only
 
 /-! ### assign_obstacles_to_lanelets (scenario.py:1203-1295) -/
 
-/-- `assign_dynamic_obstacle_shape_at_time(obstacle, time_step)`; `co` = `use_center_only`. -/
+/-- attribute updates of `assign_dynamic_obstacle_shape_at_time` on the obstacle object `f` at time step `t`
+    (`co` = `use_center_only`); returns the lanelet ids to register and the new attributes.
+    `prediction.…_assignment[t] = ids` on a `None` dict is a TypeError. -/
+def assignFwd (E : Env) (co : Bool) (o : Id) (f : Fwd) (t : T) : Res (List Id × Fwd) := do
+  let cids := E.cen o t
+  -- `if obstacle.prediction is not None: obstacle.prediction.center_lanelet_assignment[time_step] = lanelet_ids_center`
+  let f1 ← if E.kind o = Kind.dynTraj then
+      match f.predCenter with
+      | none => .error .type
+      | some d => pure { f with predCenter := some (dictSet d t cids) }
+    else pure f
+  let (lids, f2) ← if co then pure (cids, f1) else
+      if E.kind o = Kind.dynTraj then
+        match f1.predShape with
+        | none => .error .type
+        | some d => pure (E.shp o t, { f1 with predShape := some (dictSet d t (E.shp o t)) })
+      else pure (E.shp o t, f1)
+  let f3 := if t = E.t0 o then
+      { f2 with initShape := if co then f2.initShape else some lids, initCenter := some cids }
+    else f2
+  pure (lids, f3)
+
+/-- `assign_dynamic_obstacle_shape_at_time(obstacle, time_step)` -/
 def assignDynAt (E : Env) (co : Bool) (o : Id) (s : St) (t : T) : Res St :=
   if t ≠ E.t0 o ∧ (E.kind o ≠ .dynTraj ∨ E.tf o < t) then .ok s                 -- `return False`
   else if t < E.t0 o then .error .attr                                         -- state_at_time_step(t) is None
   else do
-    let cids := E.cen o t
-    let f := s.fwd o
-    let f1 ← if E.kind o = .dynTraj then
-        match f.predCenter with
-        | none => .error .type
-        | some d => pure { f with predCenter := some (dictSet d t cids) }
-      else pure f
-    let (lids, f2) ← if co then pure (cids, f1) else
-        if E.kind o = .dynTraj then
-          match f1.predShape with
-          | none => .error .type
-          | some d => pure (E.shp o t, { f1 with predShape := some (dictSet d t (E.shp o t)) })
-        else pure (E.shp o t, f1)
-    let f3 := if t = E.t0 o then
-        { f2 with initShape := if co then f2.initShape else some lids, initCenter := some cids }
-      else f2
+    let (lids, f3) ← assignFwd E co o (s.fwd o) t
     let r ← regDyn E o t lids s.dreg
     pure { s.setFwd o f3 with dreg := r }
 
